@@ -20,30 +20,24 @@ open Qx.Xml Qx.Xml.Codec
 One generic proof (`decFs_encFs`, induction over the field list). -/
 theorem decode_encode (S : Schema) (hS : S.WF) (v : List Val) (hv : S.Canon v) :
     S.decode (S.encode v) = v := by
-  obtain ⟨hok, _, hwf, _⟩ := hS
-  have hx := encFs_no_xmlns v hwf
+  obtain ⟨hok, _, hwf, _, hex⟩ := hS
+  have hx := mk_no_xmlns hex v hwf
   simp only [Schema.decode, Schema.encode]
   rw [nsOf_mk' S.head S.inh _ _ hok hx]
-  have := decFs_encFs S.fields S.head.ns S.head.tag (nsAttr S.head.decl S.head.ns) [] v hwf hv.1
-    (by
-      intro kv hkv f hf
-      have hk : kv.1 = xmlnsKey := by
-        unfold nsAttr at hkv
-        split at hkv <;> simp at hkv
-        rw [hkv]
-      rw [hk]; exact wfF_reads_xmlns (wfFs_mem hwf f hf))
-    (by simp)
+  have := decFs_encFs S.fields S.head.ns S.head.tag (nsAttr S.head.decl S.head.ns ++ S.head.extra) [] v hwf hv.1
+    (prefix_not_read hex hwf) (by simp)
   simpa [Head.mk'] using this
 
 /-- the class's own type check admits its own output -/
 theorem admit_encode (S : Schema) (hS : S.WF) (v : List Val) : S.admit (S.encode v) = some (S.encode v) := by
-  obtain ⟨hok, _, hwf, _⟩ := hS
-  have hns := nsOf_mk' S.head S.inh _ (encFs S.fields v).2 hok (encFs_no_xmlns v hwf)
+  obtain ⟨hok, _, hwf, _, hex⟩ := hS
+  have hns := nsOf_mk' S.head S.inh _ (encFs S.fields v).2 hok (mk_no_xmlns hex v hwf)
   simp only [Schema.encode] at hns ⊢
   simp only [Head.mk'] at hns
   simp only [Schema.admit]
   split
-  · simp [hns, Head.mk', Node.isElem, Node.name]
+  · simp only [List.append_assoc] at hns
+    simp [hns, Head.mk', Node.isElem, Node.name]
   · rfl
   · simp [Head.mk', Node.isElem, Node.name]
 
@@ -119,6 +113,10 @@ theorem wf_PubSubIqPurge : PubSubIqPurge.WF := by decide
 theorem wf_PubSubIqConfigure : PubSubIqConfigure.WF := by decide
 theorem wf_PubSubIqDefault : PubSubIqDefault.WF := by decide
 theorem wf_PubSubIqOwnerDefault : PubSubIqOwnerDefault.WF := by decide
+theorem wf_StanzaError : StanzaError.WF := by decide
+theorem wf_MucItem : MucItem.WF := by decide
+theorem wf_MucAdminIq : MucAdminIq.WF := by decide
+theorem wf_JingleReason : JingleReason.WF := by decide
 
 /-! ## non-vacuity: concrete values meeting the hypotheses -/
 
